@@ -3,6 +3,8 @@ import OjgVerif.Reuse.Registry
 import OjgVerif.Props.C07
 import OjgVerif.Gen.SharedState
 import OjgVerif.Gen.ReadOnly
+import OjgVerif.Reuse.Shared
+import OjgVerif.Gen.SharedObj
 /-! # C08 — concurrent use of the package-level APIs (PARTIAL: the ownership protocol only)
 
 The theorems here are about a hand-written ATOMIC-STEP model of the pools and caches
@@ -430,5 +432,133 @@ example : ∀ f ∈ (⟨0, [([], 1), ([.ptr], 2), ([.slice], 3), ([.map], 4), ([
 /-- **Shared scripts**: no function of package jp assigns to `Script.template` or an element of it
 after construction (evaluation copies the template into a per-call stack) -/
 theorem script_template_immutable : scriptTemplateWriters = [] := by decide
+
+/-! ## Shared read-only objects (round 3)
+
+The clause "evaluate and mutate through shared jp.Expr, Filter and Script values on their own data, and
+recompose with a recomposer whose types were registered beforehand … each call returns exactly what
+it returns when run alone", as a property of the atomic-step model (`Reuse/Shared.lean`): an
+evaluator step reads the shared object and writes only goroutine-local state. The tie to the source
+is the GENERATED write inventory `Gen.SharedObj` (tools/extract/reuse_sharedobj.go): in every
+function reached from the read-only entry points, every write through the receiver or through a
+local that may alias memory reachable from it, with the conditions it stands under. That an entry
+point whose inventory is empty IS a read-only `Entry` of the model is the trusted reading of that
+inventory (syntactic, flow-insensitive, call graph by name; writes through a struct field that was
+assigned an alias are not followed) — the harness' shared-object inventory stream (every ordered
+pair of entry points on different data against the call on an unused object, fingerprints, all at
+once under the race detector) is the run-time side of the same clause. -/
+
+/-- **shared objects are unwritten, and every result is the result of the run alone**: for every
+schedule (any interleaving of any goroutines' calls, any data) of read-only entry points of a shared
+object — the object is afterwards what it was, and each goroutine's state (its results) is what its
+own calls give on an object nobody else has used -/
+theorem C08_shared_objects_unwritten {O D L : Type} (cs : List (Reuse.Shared.Call O D L))
+    (h : ∀ c ∈ cs, c.e.ReadOnly) (σ : Reuse.Shared.St O L) :
+    (Reuse.Shared.exec σ cs).obj = σ.obj ∧
+    ∀ g, (Reuse.Shared.exec σ cs).loc g = (Reuse.Shared.exec σ (cs.filter fun c => c.g = g)).loc g :=
+  ⟨Reuse.Shared.shared_unwritten cs h σ, fun g => Reuse.Shared.results_alone cs h σ g⟩
+
+/-- the hypothesis is satisfiable by a non-trivial schedule: Locate by goroutine 0, Get by goroutine 1, Get by 0 -/
+example : ∀ c ∈ ([⟨0, Reuse.Shared.locate, 1⟩, ⟨1, Reuse.Shared.get, 2⟩, ⟨0, Reuse.Shared.get, 3⟩] :
+    List (Reuse.Shared.Call (Option Nat) Nat (Option Nat))), c.e.ReadOnly := by
+  intro c hc
+  simp only [List.mem_cons, List.mem_nil_iff, or_false] at hc
+  rcases hc with rfl | rfl | rfl
+  · exact Reuse.Shared.locate_readOnly
+  · exact Reuse.Shared.get_readOnly
+  · exact Reuse.Shared.get_readOnly
+
+/-- an entry point that is NOT read-only breaks both conclusions: Locate that roots the filter of the
+shared path in place (seeded change C08-m7) — goroutine 1's Get evaluates `$` against goroutine 0's
+document (`some 1`), alone against its own (`some 2`) -/
+theorem C08_shared_writer_witness :
+    ¬ Reuse.Shared.locateInPlace.ReadOnly ∧
+    (Reuse.Shared.exec ⟨none, fun _ => none⟩ [⟨0, Reuse.Shared.locateInPlace, 1⟩, ⟨1, Reuse.Shared.get, 2⟩]).loc 1 = some 1 ∧
+    (Reuse.Shared.exec ⟨none, fun _ => none⟩
+      ([⟨0, Reuse.Shared.locateInPlace, 1⟩, ⟨1, Reuse.Shared.get, 2⟩].filter fun c => c.g = 1)).loc 1 = some 2 :=
+  ⟨Reuse.Shared.locateInPlace_not_readOnly, Reuse.Shared.rooting_writer_breaks⟩
+
+/-- the construction API of `jp.Expr` (`x.C("a").N(1)`: `return append(x, frag)`), which is not among the
+read-only entry points -/
+def jpBuildersExpected : List String :=
+  ["A", "At", "B", "C", "Child", "D", "Descent", "F", "Filter", "N", "Nth", "R", "Root", "S", "Slice", "U", "Union", "W", "Wildcard"]
+
+/-- **write inventory of the shared jp values** (generated): in the 100+ functions of package jp reached
+from EVERY exported method of Expr, Filter, Script and the fragment types other than the path
+builders (Get, First, Has, Locate, Walk, Set, Del, Remove, Modify, GetNodes, String, Match, Eval … are
+among them) there is NO write through the receiver, through a parameter of a shared type (the
+remaining fragments `rest Expr`, a `*Filter`, a `Frag` …; not the location paths `pp` / `path` / `cp`
+a Locate / Walk call builds for its own caller) or through a local that may alias one of them —
+`rx := x[:i]; rx = append(rx, f)` (C08-m7), `x[i] = …`, `f.root = …`, `copy(s.template, …)`.
+`rootedFilters` builds its rooted copy with `make` + `copy` (a fresh slice) and `withRoot` returns a new
+`Filter`: both are reached, and contribute nothing -/
+theorem shared_jp_write_inventory :
+    (Gen.SharedObj.jpSharedWrites.isEmpty && decide (100 ≤ Gen.SharedObj.jpReached) &&
+     Gen.SharedObj.jpNamedEntries.all (·.2) && (Gen.SharedObj.jpBuilders == jpBuildersExpected) &&
+     decide (20 ≤ Gen.SharedObj.jpSharedParams) && (Gen.SharedObj.jpPrivatePathParams == ["cp", "path", "pp"])) = true := by decide
+
+/-- the condition under which `registerComposer` takes its NOT-yet-registered branch -/
+def freshRegistration : String := "c == nil || c.rtype != rt"
+
+/-- a write of the recomposer inventory is accounted for: it stands in the not-yet-registered branch
+(excluded by "types were registered beforehand": `C08_registry_full`), or under `if fun != nil` -/
+def recomposerWriteOk (w : String × String × List String) : Bool :=
+  w.1 == "alt.Recomposer.registerComposer" && (w.2.2.contains freshRegistration || w.2.2.contains "fun != nil")
+
+/-- **write inventory of a shared Recomposer** (generated): in the methods reached from
+`Recompose` / `MustRecompose` the only writes through the receiver or a registry entry
+(`c := r.composers[full]`) are those of `registerComposer`; each stands in the not-yet-registered
+branch or under `if fun != nil`; and every call of a register function from the reached functions
+(`recomp`, the recursive field walk) passes `nil` as the function. Seeded change C08-m8 (`c.fun = fun`
+unconditionally in the already-registered branch) leaves a write that is neither -/
+theorem shared_recomposer_write_inventory :
+    (Gen.SharedObj.recomposerSharedWrites.all recomposerWriteOk &&
+     !Gen.SharedObj.recomposerSharedWrites.isEmpty &&
+     Gen.SharedObj.recomposerRegisterCalls.all (fun c => c.2.1 == "registerComposer" && c.2.2.getLast? == some "nil") &&
+     !Gen.SharedObj.recomposerRegisterCalls.isEmpty && decide (10 ≤ Gen.SharedObj.recomposerReached)) = true := by decide
+
+/-- the already-registered branch of the source is the GUARDED one of the model: some write under
+`fun != nil` exists outside the fresh-registration branch and none without it -/
+def reRegisterGuarded : Bool :=
+  (Gen.SharedObj.recomposerSharedWrites.filter fun w => !w.2.2.contains freshRegistration).all
+    fun w => w.2.2.contains "fun != nil"
+
+theorem reRegister_is_guarded : reRegisterGuarded = true := by decide
+
+/-- **looking a registered type up does not write its entry**: what `recomp` does for a type found by
+its full name (`registerComposer(rv.Type(), nil)`, the only shape the reached calls have) leaves the
+entry — the registered RecomposeFunc included — as it was, so Recompose into such a value is a
+read-only entry point of the model and `C08_shared_objects_unwritten` applies -/
+theorem C08_registered_lookup_read_only {F : Type} (c : Reuse.Shared.Comp F) :
+    Reuse.Shared.reRegister reRegisterGuarded none c = c ∧
+    (Reuse.Shared.recompInto (F := F) reRegisterGuarded).ReadOnly := by
+  rw [reRegister_is_guarded]
+  exact ⟨rfl, Reuse.Shared.recompInto_readOnly⟩
+
+/-- without the guard (seeded change C08-m8) the registered function is lost: after goroutine 0's
+Recompose into its own value goroutine 1's create-keyed map is no longer built by it -/
+theorem C08_reregister_unguarded_witness :
+    Reuse.Shared.reRegister false none (Reuse.Shared.Comp.mk (some ())) = Reuse.Shared.Comp.mk none ∧
+    (Reuse.Shared.exec ⟨Reuse.Shared.Comp.mk (some ()), fun _ => none⟩
+      [⟨0, Reuse.Shared.recompInto false, 1⟩, ⟨1, Reuse.Shared.recompCreate, 2⟩]).loc 1 = some (2, false) ∧
+    (Reuse.Shared.exec ⟨Reuse.Shared.Comp.mk (some ()), fun _ => none⟩
+      ([⟨0, Reuse.Shared.recompInto false, 1⟩, ⟨1, Reuse.Shared.recompCreate, 2⟩].filter fun c => c.g = 1)).loc 1 = some (2, true) :=
+  ⟨rfl, Reuse.Shared.unguarded_reRegister_breaks⟩
+
+/-- finding C08-asm-plan-lazy-compile is present in the source (flip to `false` when the proposed fix
+notes/proposed_fixes/C08_asm_plan_lazy_compile.md is applied) -/
+def planLazyCompile : Bool := true
+
+/-- **a compiled asm.Plan** (generated; asm.Plan is not named in C08's statement): `(*Fn).compile` is
+called by the constructor `NewPlan`, by itself, and — DURING evaluation — by `evalValue`; the
+functions other than `NewPlan` that give a Fn an argument list that is a SLICE of somebody else's list
+instead of a copy are exactly `evalValue` (`af.Args = tv[1:]`) and `(*Fn).compile` (`af.Args = list[1:]`):
+the compile that follows writes into the plan being executed (the finding). With the fix both lists are
+copies and the list of aliases outside `NewPlan` is empty -/
+theorem shared_plan_lazy_compile :
+    ((Gen.SharedObj.asmCompileCallers == ["Fn.compile", "NewPlan", "evalValue"]) &&
+     ((Gen.SharedObj.asmArgsAliases.filter fun a => a.1 != "NewPlan") ==
+        (if planLazyCompile then [("Fn.compile", "af.Args", "list[1:]"), ("evalValue", "af.Args", "tv[1:]")] else []))) = true := by
+  decide
 
 end OjgVerif.C08
